@@ -131,12 +131,12 @@ def normalize_ordered_dict(d):
     return _normalize_seq_func((type(d), list(d.items())))
 
 
-@normalize_token.register(set)
+@normalize_token.register((set, frozenset))
 def normalize_set(s):
     # Note: in some Python version / OS combinations, set order changes every
     # time you recreate the set (even within the same interpreter).
     # In most other cases, set ordering is consistent within the same interpreter.
-    return "set", _normalize_seq_func(sorted(s, key=str))
+    return type(s).__name__, _normalize_seq_func(sorted(s, key=str))
 
 
 def _normalize_seq_func(seq: Iterable[object]) -> tuple[object, ...]:
